@@ -15,6 +15,7 @@ import os
 import re
 import shutil
 import tempfile
+from pathlib import Path
 import xml.etree.ElementTree as ET
 from collections import Counter
 
@@ -48,6 +49,7 @@ THEOREMS = [
     "HedVerif.C13.refuse_unpartnered",
     "HedVerif.C13.load_two_ok",
     "HedVerif.C13.refuse_shared_name",
+    "HedVerif.C13.merge_prefix_commute",
     "HedVerif.C13.canonG_eq_view",
     "HedVerif.C13.unloaded_prefix_invalid",
     "HedVerif.C13.lookup_issues_per_tag",
@@ -72,6 +74,18 @@ QUICK_GROUPS = [
     [("", "8.3.0"), ("sc:", "score_2.0.0")],
     [("", "8.2.0"), ("sc:", "score_1.1.0")],
     [("tl:", "testlib_3.0.0"), ("", "8.3.0")],
+]
+# several libraries merged under ONE non-empty prefix (the loader sets the prefix on the first, merges the next into it
+# and finalizes again with the prefix set): alone (a single prefixed schema) and beside an unprefixed standard schema
+MERGED_PREFIX_QUICK = [
+    [("tl:", "testlib_2.0.0,score_1.1.0")],
+    [("", "8.2.0"), ("tl:", "testlib_2.0.0,score_1.1.0")],
+]
+MERGED_PREFIX_MORE = [
+    [("ts:", "testlib_2.0.0,testlib_3.0.0")],
+    [("", "8.3.0"), ("x:", "score_1.1.0,testlib_3.0.0")],
+    [("m:", "testlib_2.0.0,score_1.1.0,testlib_3.0.0"), ("", "8.2.0")],
+    [("m:", "testlib_2.0.0,testlib_3.0.0"), ("sc:", "score_2.0.0"), ("", "8.3.0")],
 ]
 MORE_GROUPS = [
     [("", "8.3.0"), ("sc:", "score_2.0.0"), ("tl:", "testlib_3.0.0")],
@@ -110,10 +124,16 @@ def digest_vocab(v):
         comps = l.split("/")
         if any("extensionAllowed" in attrs["/".join(comps[:k])] for k in range(1, len(comps) + 1)):
             ext.add(l)
-    units = {}
+    units, units_si = {}, {}
     for uc in v["unit_classes"]:
         units[uc["name"]] = [u["name"] for u in uc["units"]]
-    return {"longs": longs, "attrs": attrs, "longset": longset, "nodes": nodes, "ext": ext, "units": units,
+        si = []
+        for u in uc["units"]:
+            a = u.get("attrs", {})
+            if "SIUnit" in a:      # SI-prefixed spellings: symbol modifiers on unit symbols, name modifiers on unit names
+                si += [m + u["name"] for m in (("m", "k", "c") if "unitSymbol" in a else ("milli", "kilo", "centi"))]
+        units_si[uc["name"]] = si
+    return {"raw_unit_classes": v["unit_classes"], "units_si": units_si, "longs": longs, "attrs": attrs, "longset": longset, "nodes": nodes, "ext": ext, "units": units,
             "shorts": {l.split("/")[-1].casefold() for l in nodes},
             "valued": [l for l in nodes if (l + "/#") in longset],
             "unique": [l for l in longs if "unique" in attrs[l]],
@@ -128,19 +148,18 @@ def merged_member_vocab(ctx, spec):
         return _VOCAB[key]
     first, *rest = spec.split(",")
     base = vocab_of(first)
-    libs = [[{"name": l, "rooted": None} for l in vocab_of(r)["longs"] if "inLibrary" in vocab_of(r)["attrs"][l]]
-            for r in rest]
-    ans = ctx.model.batch([{"op": "c13.merge", "base": base["longs"], "nstd": len(base["longs"]), "libs": libs}])[0]
+    # the model's `loadVersions` (header guards, library-only append, duplicate check)
+    ans = ctx.model.batch([{"op": "c13.load", "first": source_of(first), "rest": [source_of(r) for r in rest]}])[0]
     if "ok" not in ans:
         raise RuntimeError(f"model refuses {spec}: {ans}")
     attrs = dict(base["attrs"])
-    units = dict(base["units"])
+    ucs = {uc["name"]: uc for uc in base["raw_unit_classes"]}
     for r in rest:
         attrs.update({l: a for l, a in vocab_of(r)["attrs"].items() if l not in attrs})
-        for k, u in vocab_of(r)["units"].items():
-            units.setdefault(k, u)
+        for uc in vocab_of(r)["raw_unit_classes"]:
+            ucs.setdefault(uc["name"], uc)
     v = {"tags": [{"long": l, "attrs": attrs[l]} for l in ans["ok"]],
-         "unit_classes": [{"name": k, "units": [{"name": n} for n in u]} for k, u in units.items()],
+         "unit_classes": list(ucs.values()),
          "header": base["header"]}
     _VOCAB[key] = digest_vocab(v)
     return _VOCAB[key]
@@ -170,7 +189,8 @@ def value_for(rng, V, long):
         return rng.choice(["@@", "1 badunit", "x y z", "#"])
     ucs = [u for u in a.get("unitClass", []) if V["units"].get(u)]
     if ucs and k < 0.75:
-        unit = rng.choice(V["units"][rng.choice(ucs)])
+        uc = rng.choice(ucs)
+        unit = rng.choice(V["units_si"][uc]) if V["units_si"].get(uc) and rng.random() < 0.4 else rng.choice(V["units"][uc])
         return f"{rng.choice(['3', '0.5', '12', '-1', '1e3'])} {unit}"
     vcs = a.get("valueClass", [])
     if "numericClass" in vcs:
@@ -193,7 +213,10 @@ def gen_tag(rng, V):
     form = vary_case(rng, "/".join(comps[i:]))
     has_val = (long + "/#") in V["longset"]
     if has_val:
-        if rng.random() < 0.85:
+        r = rng.random()
+        if r < 0.08:       # a value that is itself a schema term
+            return form + "/" + rng.choice(V["nodes"]).split("/")[-1], "value-is-term"
+        if r < 0.85:
             return form + "/" + value_for(rng, V, long), "value"
         return form, "value-missing"
     k = rng.random()
@@ -386,7 +409,7 @@ def run_group(ctx, members, n_ann, hed):
                 ctx.violation("prefixed-in-group != unprefixed-alone" if p else "unprefixed-in-group != alone",
                               case, {"text": t_pre, "group": c_group, "alone": c_alone}, signature=sig)
             for t in tags_of(items):
-                find_cases[p + t] = None
+                find_cases[p + t] = (p, t, spec)
             # attribute unions: the validator's own two functions on the parsed tags
             hs = HedString(t_pre, group)
             tags = hs.get_all_tags()
@@ -400,8 +423,9 @@ def run_group(ctx, members, n_ann, hed):
     bad = []
     # non-ASCII candidates only where the whole text is judged by the 8.3.0 character rules (before 8.3.0 any non-ASCII
     # character stops validation in the string phase as CHARACTER_INVALID)
+    member_schemas = list(group._schemas.values()) if hasattr(group, "_schemas") else [group]
     uni = ["\u00e91:", "\u00f1_:", "e\u0301:", "\u0436:"] if group.schema_83_props and all(
-        sch.schema_83_props for sch in group._schemas.values()) else []
+        sch.schema_83_props for sch in member_schemas) else []
     for p in ["zz:", "s1:", ":", "sc1:", "Tl:"] + uni + ([""] if "" not in prefixes else []):
         if p in prefixes:
             continue
@@ -416,12 +440,27 @@ def run_group(ctx, members, n_ann, hed):
     if not all(ans[0]["wf"]):
         ctx.notes.append(f"group {label}: hypotheses of the dispatch theorems not met (wf={ans[0]['wf']})")
     ctx.count(f"group:{label}:WF={all(ans[0]['wf'])}")
+    alone_of = {spec: load_alone(load_schema_version, spec) for _, spec in members}
     for text, m in zip(texts + bad, ans[0]["results"]):
         r = impl_find(HedTag, group, text)
         ctx.evaluations += 1
         if canon_find(m) != r:
             ctx.disagree("Group.find = HedTag lookup in HedSchemaGroup", {"group": [list(x) for x in members], "text": text},
                          canon_find(m), r)
+        if text in find_cases and find_cases[text][0]:
+            # direct oracle (no model): the prefixed spelling identifies the same node with the same remainder and forms as
+            # the unprefixed spelling against the same schema(s) loaded without prefix - prefix apart
+            p, t, spec = find_cases[text]
+            r0 = impl_find(HedTag, alone_of[spec], t)
+            if "err" in r0:
+                want = {"err": r0["err"], "a": None if r0["a"] is None else r0["a"] + len(p),
+                        "b": None if r0["b"] is None else r0["b"] + len(p)}
+            else:
+                want = dict(r0, ns=p, short=p + r0["short"], long=p + r0["long"])
+            if want != r:
+                ctx.violation("prefixed-spelling-resolves-differently-from-unprefixed",
+                              {"group": [list(x) for x in members], "text": text},
+                              {"prefixed": r, "unprefixed": r0})
     for text, m in zip(bad, ans[0]["results"][len(texts):]):
         # direct oracle: a prefix that is not loaded / not alphabetic is the namespace error
         codes = [c for c, _ in codes_of(HedString, text, group)]
@@ -573,7 +612,57 @@ def c01_vocab(name):
     from harness.props import c01
     from hed.schema.hed_schema_entry import pluralize
     if name not in _C01V:
-        _C01V[name] = c01.Vocab(name, pluralize.plural)
+        if "," in name:
+            # several libraries under one prefix: C01's vocabulary reader works on ONE file (and the implementation refuses
+            # to save such a merge), so the file is assembled here from the bundled XMLs alone: the first library's file
+            # with the library subtrees (`inLibrary` nodes under a partner node or at top level) of the others grafted in
+            # at the same parents; that it holds exactly the model's `loadVersions` tag list is checked below
+            import copy
+            first, *rest = name.split(",")
+            root = ET.parse(schema_xml.bundled()[first]).getroot()
+            where = {}
+
+            def index(node, prefix):
+                long = prefix + [node.findtext("name")]
+                where["/".join(long)] = node
+                for ch in node.findall("node"):
+                    index(ch, long)
+            for top in root.find("schema").findall("node"):
+                index(top, [])
+
+            def is_lib(node):
+                return any(a.findtext("name") == "inLibrary" for a in node.findall("attribute"))
+
+            def graft(node, prefix, parent_lib):
+                long = prefix + [node.findtext("name")]
+                if is_lib(node) and not parent_lib:
+                    target = where["/".join(prefix)] if prefix else root.find("schema")
+                    new = copy.deepcopy(node)
+                    target.append(new)
+                    index(new, prefix)
+                    return
+                for ch in node.findall("node"):
+                    graft(ch, long, is_lib(node))
+            for r in rest:
+                for top in ET.parse(schema_xml.bundled()[r]).getroot().find("schema").findall("node"):
+                    graft(top, [], False)
+            d = tempfile.mkdtemp(prefix="hv_c13v_")
+            try:
+                path = Path(d) / "merged.xml"
+                ET.ElementTree(root).write(path, encoding="utf-8")
+                orig = schema_xml.bundled
+                schema_xml.bundled = lambda: {**orig(), name: path}
+                try:
+                    _C01V[name] = c01.Vocab(name, pluralize.plural)
+                finally:
+                    schema_xml.bundled = orig
+            finally:
+                shutil.rmtree(d, ignore_errors=True)
+            want = _VOCAB.get("merge:" + name)
+            if want is not None and sorted(want["longs"]) != sorted(_C01V[name].long):
+                raise RuntimeError(f"saved merge of {name} differs from the model's loadVersions tag list")
+        else:
+            _C01V[name] = c01.Vocab(name, pluralize.plural)
     return _C01V[name]
 
 
@@ -666,7 +755,7 @@ def run_group_validate(ctx, members, n_each, hed):
                             "cases": [{"text": c[3], "ph": c[4]} for c in cases]}])[0]
     if "bad-op" in ans:
         raise RuntimeError("driver: " + str(ans["bad-op"]))
-    alone = {name: load_schema_version(name) for _, name in members}
+    alone = {name: load_alone(load_schema_version, name) for _, name in members}
     if ans["group_modern"] != bool(group.schema_83_props):
         ctx.disagree("groupModern = group.schema_83_props", {"group": [list(m) for m in members]}, ans["group_modern"], group.schema_83_props)
     for (p, name), am in zip(members, ans["alone_modern"]):
@@ -723,7 +812,9 @@ GV_GROUPS = [
     [("a:", "8.3.0"), ("sc:", "score_1.1.0"), ("tl:", "testlib_2.0.0")],
     [("sc:", "score_2.0.0"), ("", "testlib_3.0.0")],
     [("\u0436:", "8.3.0"), ("\u00f1u:", "score_2.0.0")],
+    [("m:", "testlib_2.0.0,score_1.1.0,testlib_3.0.0"), ("", "8.2.0")],
 ]
+GV_MERGED_QUICK = [("", "8.2.0"), ("tl:", "testlib_2.0.0,score_1.1.0")]
 GV_UNICODE_QUICK = [("", "8.3.0"), ("\u00e9:", "score_2.0.0")]
 
 
@@ -1246,12 +1337,16 @@ def run(ctx):
         generation_probe(ctx, hed)
         groups = QUICK_GROUPS + (MORE_GROUPS if not ctx.quick() else MORE_GROUPS[:1])
         run_group_validate(ctx, GV_UNICODE_QUICK, (120 if ctx.quick() else 1000), hed)
+        merged_member_vocab(ctx, GV_MERGED_QUICK[1][1])
+        run_group_validate(ctx, GV_MERGED_QUICK, (150 if ctx.quick() else 1200), hed)
         for k, members in enumerate(GV_GROUPS):
             if ctx.quick() and k >= 3 + (ctx.seed % 2):
                 break
             run_group_validate(ctx, members, (200 if ctx.quick() else 1500), hed)
         for members in UNICODE_GROUPS_QUICK + ([] if ctx.quick() else UNICODE_GROUPS_MORE):
             run_group(ctx, members, (300 if ctx.quick() else 1500) // len(members), hed)
+        for members in MERGED_PREFIX_QUICK + ([] if ctx.quick() else MERGED_PREFIX_MORE):
+            run_group(ctx, members, (500 if ctx.quick() else 2500) // len(members), hed)
         for members in groups:
             full = members in QUICK_GROUPS
             if ctx.quick():
@@ -1342,5 +1437,16 @@ def replay(ctx, rec):
         print("model:", json.dumps(canon_find(m)), "\nimpl: ", json.dumps(r), "\ncodes:", codes_of(HedString, case["text"], group))
         if canon_find(m) != r:
             ctx.disagree("Group.find = HedTag lookup in HedSchemaGroup", case, canon_find(m), r)
+        p = next((q for q, _ in members if q and case["text"].startswith(q)), "")
+        if p:
+            r0 = impl_find(HedTag, load_alone(load_schema_version, dict(members)[p]), case["text"][len(p):])
+            if "err" in r0:
+                want = {"err": r0["err"], "a": None if r0["a"] is None else r0["a"] + len(p),
+                        "b": None if r0["b"] is None else r0["b"] + len(p)}
+            else:
+                want = dict(r0, ns=p, short=p + r0["short"], long=p + r0["long"])
+            print("unprefixed alone:", json.dumps(r0))
+            if want != r:
+                ctx.violation("prefixed-spelling-resolves-differently-from-unprefixed", case, {"prefixed": r, "unprefixed": r0})
         return
     print("no single-case replay for this record; re-run ./check C13 with VERIF_SEED =", rec.get("seed"))
